@@ -18,7 +18,7 @@ type propDef struct {
 	id    string
 	rules func(c *Ctx, r *Report)
 	// thorough-only additions (second configuration etc.); may be nil
-	thorough func(c *Ctx, r *Report)
+	thorough  func(c *Ctx, r *Report)
 	levelRule string
 }
 
